@@ -5,6 +5,8 @@ usage:
   run_seeded.py confirm <src_dir>   # src_dir/<ID>/<variant>/{patch.diff,demo.rs,meta.json}: confirm each one
                                     # (applies, suite passes, demo fails with / passes without) and copy the
                                     # confirmed ones to /verif/seeded/<ID>-<variant>/
+  run_seeded.py silent <dir>        # dir/**.diff = behaviour-preserving refactors: apply each and expect ALL
+                                    # quick checks to stay silent; writes /verif/seeded/benign_results.json
   run_seeded.py detect [names...]   # run `./check <ID>` (quick) against each seeded change; writes
                                     # /verif/seeded/results.json
 options: -j N workers (default 4), --tier quick|thorough, --also C01,C03 | --also related (extra properties to run)
@@ -210,6 +212,60 @@ def cmd_detect(names, jobs, tier, also):
     return results
 
 
+ALL_IDS = ["C%02d" % i for i in range(1, 18)]
+
+
+def silent_one(diff, name, ids):
+    """apply a behaviour-preserving refactor and expect every check to stay silent (exit 0)"""
+    wt = make_worktree("silent-" + name)
+    build = os.path.join(SCRATCH, "build-silent-" + name)
+    res = {"name": name, "alarms": {}, "errors": {}}
+    try:
+        rc, out = sh(["git", "apply", diff], cwd=wt)
+        if rc != 0:
+            res["error"] = "patch does not apply: " + out[-300:]
+            return res
+        ok, out = tests_pass(wt)
+        res["suite_passes"] = ok
+        env = dict(ENV, VERIF_REPO=wt, VERIF_BUILD_DIR=build)
+        for p in ids:
+            rc, out = sh([os.path.join(VERIF, "check"), p, "--tier", "quick"], cwd=VERIF, env=env, timeout=7200)
+            if rc == 1:
+                res["alarms"][p] = [l for l in out.splitlines() if l.startswith("VIOLATION") or l.startswith("  what:")][:6]
+            elif rc != 0:
+                res["errors"][p] = out[-500:]
+    finally:
+        drop_worktree(wt)
+        shutil.rmtree(build, ignore_errors=True)
+    return res
+
+
+def cmd_silent(src_dir, jobs, ids):
+    todo = []
+    for root, _, files in os.walk(src_dir):
+        for f in sorted(files):
+            if f.endswith(".diff"):
+                todo.append((os.path.join(root, f), os.path.basename(root) + "-" + f[:-5]))
+    out_path = os.path.join(VERIF, "seeded", "benign_results.json")
+    results = {}
+    if os.path.exists(out_path):
+        try:
+            results = json.load(open(out_path))
+        except Exception:  # noqa
+            results = {}
+    with concurrent.futures.ThreadPoolExecutor(jobs) as ex:
+        futs = {ex.submit(silent_one, d, n, ids): n for d, n in todo}
+        for f in concurrent.futures.as_completed(futs):
+            n = futs[f]
+            try:
+                r = f.result()
+            except Exception as e:  # noqa
+                r = {"name": n, "error": repr(e)}
+            results[n] = r
+            print(n, "SILENT" if not r.get("alarms") and not r.get("errors") and not r.get("error") else "ALARM/ERR %s" % {k: v for k, v in r.items() if k != "name"}, flush=True)
+            json.dump(results, open(out_path, "w"), ensure_ascii=False, indent=1, sort_keys=True)
+
+
 def main():
     args = sys.argv[1:]
     jobs, tier, also = 4, "quick", []
@@ -229,6 +285,8 @@ def main():
         print(__doc__); sys.exit(2)
     if rest[0] == "confirm":
         cmd_confirm(rest[1], jobs)
+    elif rest[0] == "silent":
+        cmd_silent(rest[1], jobs, also or ALL_IDS)
     elif rest[0] == "detect":
         cmd_detect(rest[1:], jobs, tier, also)
     else:
